@@ -602,20 +602,56 @@ def _live_sampler(seed, clustering, n_particles=24, n_dim=2, vv=None, n_total=48
     return s
 
 
-def drive_trainer(core, w, beta, clustering, iter_val=0, fitted=False):
-    """one real Trainer.run(w) on the populated state of `core`, with the fitting routines stubbed out.
+class HarnessAbort(Exception):
+    """the observation machinery itself failed (not the code under test): a correspondence abort, never a failing input"""
+
+
+def _raised_in_repo(ex):
+    """was the exception raised by a frame of the code under test (and not by one of our spies / stubs)?"""
+    import os
+    import traceback
+    tb = traceback.extract_tb(ex.__traceback__)
+    if not tb:
+        return False
+    root = os.path.realpath(common.REPO) + os.sep
+    return os.path.realpath(tb[-1].filename).startswith(root)
+
+
+def _bind_trim_call(real_trim, a, kw):
+    """(samples, weights, ess, bins, extra) of a call of trim_weights, whatever its current signature is; `extra` = every
+    further argument of the present source with the value it had in this call"""
+    import inspect
+    try:
+        ba = inspect.signature(real_trim).bind(*a, **kw)
+        ba.apply_defaults()
+    except TypeError:
+        return None      # the call does not fit the function's own signature: the real call below raises the real error
+    d = dict(ba.arguments)
+    if not {"samples", "weights"} <= set(d):
+        raise HarnessAbort(f"trim_weights has no samples/weights parameters any more: {list(d)}")
+    extra = {k: v for k, v in d.items() if k not in ("samples", "weights", "ess", "bins")}
+    return d["samples"], d["weights"], d.get("ess"), d.get("bins"), extra
+
+
+def drive_trainer(core, w, beta, clustering, iter_val=0, fitted=False, trainer=None):
+    """one real Trainer.run(w) on the populated state of `core`, with the fitting routines stubbed out; `trainer`: the Trainer
+       object to use (default the sampler's own) -- consecutive calls on ONE object see whatever it carries between iterations.
+       The spy on trim_weights passes every positional and keyword argument through untouched.
        Returns dict(trim_calls, handed, after, early, u_hist)."""
     import tempest.steps.train as train_mod
-    tr = core.trainer
+    tr = trainer if trainer is not None else core.trainer
     sm = core.state
     rec = {"trim_calls": [], "handed": [], "early": False}
     real_trim = train_mod.trim_weights
 
-    def trim_spy(samples, weights, ess=0.99, bins=1000):
-        before = np.array(weights, copy=True)
-        r = real_trim(samples, weights, ess=ess, bins=bins)
-        rec["trim_calls"].append(dict(samples=np.array(samples, copy=True), before=before, same_object=weights is w_arr,
-                                      ess=ess, bins=bins, idx=np.array(r[0], copy=True), wt=np.array(r[1], copy=True)))
+    def trim_spy(*a, **kw):
+        bound = _bind_trim_call(real_trim, a, kw)
+        before = None if bound is None else np.array(bound[1], copy=True)
+        r = real_trim(*a, **kw)
+        if bound is not None:
+            samples, weights, ess, bins, extra = bound
+            rec["trim_calls"].append(dict(samples=np.array(samples, copy=True), before=before, same_object=weights is w_arr,
+                                          ess=ess, bins=bins, extra=extra, idx=np.array(r[0], copy=True), wt=np.array(r[1], copy=True)))
         return r
     w_arr = np.array(w, dtype=float)
     _StubStats.calls = []
@@ -627,7 +663,14 @@ def drive_trainer(core, w, beta, clustering, iter_val=0, fitted=False):
         sm.set_current("iter", iter_val)
         tr.clusterer, tr.clustering, tr._clusterer_fitted, tr.pbar = stub_cl, clustering, fitted, None
         with _Quiet(), common.patched(train_mod, "trim_weights", trim_spy), common.patched(train_mod, "ModeStatistics", _StubStats):
-            tr.run(w_arr)
+            try:
+                tr.run(w_arr)
+            except HarnessAbort:
+                raise
+            except Exception as ex:  # noqa
+                if not _raised_in_repo(ex):
+                    raise HarnessAbort(f"{type(ex).__name__}: {ex}") from ex
+                raise
     finally:
         sm.set_current("beta", old["beta"])
         sm.set_current("iter", old["it"])
@@ -639,6 +682,42 @@ def drive_trainer(core, w, beta, clustering, iter_val=0, fitted=False):
     rec["u_hist"] = np.array(sm.get_history("u", flat=True), copy=True)
     rec["TRIM"] = (tr.TRIM_ESS, tr.TRIM_BINS)
     return rec
+
+
+def _show_extra(extra):
+    return ", ".join(f"{k}={v!r}" for k, v in sorted(extra.items())) if extra else ""
+
+
+def judge_trim_result(w_before, ess, idx, wt, extra=None):
+    """the trimming contract for ONE observed call trim_weights(arange(n), w_before, ess, ...) -> (idx, wt), whatever further
+    arguments the call carried: non-empty increasing index list, weights normalised and aligned with w_before[idx], exactly an
+    upper set, ESS(wt) >= min(ess, 1) * ESS(w_before) (Kish, computed here)"""
+    w0 = np.array(w_before, dtype=float)
+    n = len(w0)
+    idx = np.asarray(idx).astype(int)
+    wt = np.asarray(wt, dtype=float)
+    how = f" [call: ess={ess!r}{', ' + _show_extra(extra) if extra else ''}]"
+    if idx.size == 0 or idx.size != wt.size:
+        return f"{idx.size} indices, {wt.size} weights returned" + how
+    if np.any(np.diff(idx) <= 0) or idx.min() < 0 or idx.max() >= n:
+        return "kept indices are not an increasing sublist of range(n)" + how
+    if abs(float(np.sum(wt)) - 1.0) > 1e-9 or np.any(wt < 0):
+        return f"returned weights not normalised: sum = {float(np.sum(wt))!r}" + how
+    with _Quiet():
+        wn = w0 / np.sum(w0)
+    kept = np.zeros(n, dtype=bool)
+    kept[idx] = True
+    if np.any(~kept & (w0 >= w0[kept].min()) & (wn >= wn[kept].min())):
+        return "kept set is not an upper set of the weights" + how
+    if not np.allclose(wt * float(np.sum(wn[kept])), wn[kept], rtol=1e-11, atol=0.0):
+        return "returned weights are not the kept weights renormalised (misaligned)" + how
+    k0 = 1.0 / float(np.sum(wn ** 2.0))
+    k1 = 1.0 / float(np.sum((wt / np.sum(wt)) ** 2.0))
+    f = min(float(ess), 1.0)
+    if not (k1 >= f * k0 * (1 - 1e-9)):
+        return (f"ESS guarantee broken: ESS(trimmed) = {k1!r} < {f} * ESS(all) = {f * k0!r} (ratio {k1 / k0:.6f}, "
+                f"{idx.size} of {n} kept)" + how)
+    return None
 
 
 def trainer_site_property(rec, w):
@@ -660,10 +739,16 @@ def trainer_site_property(rec, w):
         return "trim_weights was not given np.arange(len(weights)) as samples"
     if not np.array_equal(tc["before"], w0):
         return "trim_weights was not given the caller's weights"
-    if (tc["ess"], tc["bins"]) != rec["TRIM"] or rec["TRIM"] != (cfg.TRIM_ESS, cfg.TRIM_BINS):
+    if tc["ess"] != rec["TRIM"][0] or rec["TRIM"] != (cfg.TRIM_ESS, cfg.TRIM_BINS):
         return f"trim_weights called with ess={tc['ess']!r}, bins={tc['bins']!r}; config has {cfg.TRIM_ESS!r}, {cfg.TRIM_BINS!r}"
+    if not tc.get("extra") and tc["bins"] != rec["TRIM"][1]:
+        return f"trim_weights called with bins={tc['bins']!r}; config has {cfg.TRIM_BINS!r}"
     if not (0 < cfg.TRIM_ESS <= 1 and cfg.TRIM_BINS >= 1):
         return f"config constants outside the contract: TRIM_ESS={cfg.TRIM_ESS!r}, TRIM_BINS={cfg.TRIM_BINS!r}"
+    # the contract of THIS call, with every argument it carried (also arguments the model does not know)
+    msg = judge_trim_result(tc["before"], tc["ess"], tc["idx"], tc["wt"], tc.get("extra"))
+    if msg:
+        return "Trainer.run -> trim_weights: " + msg
     wn = w0 / np.sum(w0)
     if not (np.allclose(rec["after"], wn, rtol=1e-12, atol=1e-300) or np.array_equal(rec["after"], w0)):
         return "after the call the caller's weights are neither untouched nor w/sum(w)"
@@ -698,6 +783,113 @@ def _site_weights(rng, n):
     return fam, w
 
 
+def _profile(rng, n, kind):
+    """one weight vector over the n history rows with a given degree of concentration"""
+    if kind == "concentrated":
+        k = 10.0 ** rng.uniform(-1.6, -0.3)
+        w = [math.exp(-k * r) for r in range(n)]
+        rng.shuffle(w)
+    elif kind == "even":
+        sg = rng.uniform(0.02, 0.3)
+        w = [math.exp(sg * rng.gauss(0, 1)) for _ in range(n)]
+    elif kind == "uniform":
+        w = [1.0] * n
+    elif kind == "spike":
+        w = [1e-6 * rng.random() for _ in range(n)]
+        for _ in range(rng.randint(1, 4)):
+            w[rng.randrange(n)] = 1.0 + rng.random()
+    else:
+        w = _site_weights(rng, n)[1]
+    sc = rng.choice([1.0, 1.0, 1e-30, 1e30])
+    return [x * sc for x in w]
+
+
+_SEQS = [("concentrated", "even"), ("concentrated", "even", "concentrated", "uniform"), ("spike", "even", "mixed"),
+         ("even", "concentrated", "even"), ("mixed", "mixed", "mixed"), ("concentrated", "uniform", "spike")]
+
+
+def profile_sequence(rng, n, k=None):
+    kinds = _SEQS[k % len(_SEQS)] if k is not None else rng.choice(_SEQS)
+    return kinds, [_profile(rng, n, kd) for kd in kinds]
+
+
+def _fresh_trainer(core):
+    """a copy of the sampler's Trainer in the state the live run left it in: what one call does to the object is not carried into
+    the next single-call case (carried state is the business of the sequences, which are replayable as a whole)"""
+    import copy
+    return copy.copy(core.trainer)
+
+
+def run_trainer_sequence(core, ws, clustering):
+    """2-4 consecutive Trainer.run calls (beta != 0) on ONE fresh copy of the sampler's Trainer object, each judged by the call-site
+    property.  Returns (index of the failing call | None, message, records)."""
+    tr = _fresh_trainer(core)
+    recs = []
+    for k, w in enumerate(ws):
+        try:
+            rec = drive_trainer(core, w, 0.5, clustering, iter_val=k, fitted=k > 0, trainer=tr)
+        except HarnessAbort:
+            raise
+        except Exception as ex:  # noqa
+            return k, f"call {k + 1} of {len(ws)} on one Trainer: Trainer.run raised {type(ex).__name__}: {ex}", recs
+        recs.append(rec)
+        msg = trainer_site_property(rec, w)
+        if msg:
+            return k, f"call {k + 1} of {len(ws)} on one Trainer: {msg}", recs
+    return None, None, recs
+
+
+def observed_trim_kwargs(recs):
+    """the distinct argument sets (ess, bins, further arguments) the Trainer really passed to trim_weights"""
+    out = []
+    for rec in recs:
+        for tc in rec["trim_calls"]:
+            key = (tc["ess"], tc["bins"], tuple(sorted((k, repr(v)) for k, v in tc["extra"].items())))
+            if key not in [o[0] for o in out]:
+                out.append((key, dict(ess=tc["ess"], bins=tc["bins"], extra=dict(tc["extra"]))))
+    return [o[1] for o in out]
+
+
+def direct_trim_with(w, ess, bins, extra):
+    """the contract of a DIRECT call trim_weights(arange(n), w, ess=, bins=, **extra) with arguments of the present source"""
+    t = _tools()
+    wc = np.array(w, dtype=float)
+    with _Quiet():
+        try:
+            idx, wt = t.trim_weights(np.arange(len(w)), wc, ess=ess, bins=bins, **extra)
+        except Exception as ex:  # noqa
+            if not _raised_in_repo(ex):
+                raise HarnessAbort(f"{type(ex).__name__}: {ex}") from ex
+            return f"trim_weights raised {type(ex).__name__}: {ex} [call: ess={ess!r}, bins={bins!r}, {_show_extra(extra)}]"
+    return judge_trim_result(w, ess, idx, wt, dict(extra, bins=bins))
+
+
+_SIGNATURES = {"effective_sample_size": "(weights)", "compute_ess": "(logw)",
+               "trim_weights": "(samples, weights, ess=0.99, bins=1000)", "volume_variation": "(x, w=None)"}
+
+
+def _sig_text(fn):
+    import inspect
+    ps = []
+    for name, prm in inspect.signature(fn).parameters.items():
+        ps.append(name if prm.default is inspect.Parameter.empty else f"{name}={prm.default!r}")
+    return "(" + ", ".join(ps) + ")"
+
+
+def suite_signatures():
+    """the keyword API of the four utilities, as the models (and Props.C20Source.expected_signatures) assume it"""
+    t = _tools()
+    c = Corr("signatures", "exact (inspect.signature of the real functions vs the modelled parameter lists)")
+    for name, want in _SIGNATURES.items():
+        got = _sig_text(getattr(t, name))
+        c.case((name, got), True)
+        c.count(name)
+        if got != want:
+            c.disagree(kind="signature", function=name, impl=got, model=want)
+        c.sample({"function": name, "signature": got})
+    return c
+
+
 def suite_callsite_train(tier, drv):
     import tempest.config as cfg
     c20 = _c20()
@@ -717,7 +909,11 @@ def suite_callsite_train(tier, drv):
             beta = 0.0 if k % 9 == 0 else rng.choice([0.01, 0.5, 1.0])
             iter_val, fitted = rng.choice([(0, False), (3, True), (3, False), (4, True)])
             try:
-                rec = drive_trainer(core, w, beta, clustering, iter_val=iter_val, fitted=fitted)
+                rec = drive_trainer(core, w, beta, clustering, iter_val=iter_val, fitted=fitted, trainer=_fresh_trainer(core))
+            except HarnessAbort as ex:
+                c.case((fam, k), True)
+                c.disagree(kind="harness-abort", impl=f"the instrumented Trainer.run could not be observed: {ex}", model="observable")
+                return c
             except Exception as ex:  # noqa
                 c.case((fam, k), True)
                 c.disagree(kind="site-train", w_hex=[f2hex(x) for x in w], beta=beta, clustering=clustering, seed=sd,
@@ -763,6 +959,28 @@ def suite_callsite_train(tier, drv):
                 and (untouched or all(c20._relclose(a, b, 1e-12) for a, b in zip(rec["after"].tolist(), after)))):
             c.disagree(impl=[f2hex(x) for x in ww.tolist()[:10]], model=[f2hex(x) for x in mw[:10]], **hint)
         c.sample({"n": len(w), "kept": len(idx), "routine": kind, "beta": beta})
+    # sequences of calls on ONE Trainer object (whatever it carries from one iteration to the next is exercised): concentrated
+    # weights followed by even ones and the other way round, uniform, spikes; every trim_weights result judged by the contract
+    n_seq = 6 if tier == "quick" else 40
+    for s, clustering, sd in samplers[:2]:
+        core = s._core
+        n = len(core.state.get_history("u", flat=True))
+        for k in range(n_seq):
+            kinds, ws = profile_sequence(rng, n, k)
+            c.case(("seq", sd, k, [f2hex(x) for x in ws[0][:8]]), True)
+            c.count("sequence:" + ">".join(kinds))
+            try:
+                bad, msg, recs = run_trainer_sequence(core, ws, clustering)
+            except HarnessAbort as ex:
+                c.disagree(kind="harness-abort", impl=f"the instrumented Trainer.run could not be observed: {ex}", model="observable")
+                return c
+            for rec in recs:
+                for tc in rec["trim_calls"]:
+                    if tc["extra"]:
+                        c.count("trim_weights-called-with-further-arguments")
+            if msg:
+                c.disagree(kind="site-train-seq", seed=sd, clustering=clustering, ws_hex=[[f2hex(x) for x in w] for w in ws[:bad + 1]],
+                           impl=msg, model="the call-site property, call after call")
     # the same array object reaches the Resampler (execute_iteration), normalised in place
     for s, clustering, sd in samplers[:2]:
         msg = iteration_object_flow(s, rng)
@@ -946,7 +1164,7 @@ def suite_callsite_metric(tier, drv):
 
 
 def suites(tier, drv):
-    out = [suite_ess_property(tier), suite_cess_neginf(tier, drv), suite_trim_property(tier)]
+    out = [suite_signatures(), suite_ess_property(tier), suite_cess_neginf(tier, drv), suite_trim_property(tier)]
     out += suite_volvar_exec(tier, drv)
     out += [suite_callsite_train(tier, drv), suite_callsite_metric(tier, drv)]
     return out
@@ -965,11 +1183,39 @@ def search_sites(tier, add):
             continue
         core = s._core
         n = len(core.state.get_history("u", flat=True))
+        seen_kwargs = []
+        for k in range(12 if tier == "quick" else 60):
+            kinds, ws = profile_sequence(rng, n, k)
+            try:
+                bad, msg, recs = run_trainer_sequence(core, ws, clustering)
+            except HarnessAbort:
+                break           # our own instrumentation does not fit: nothing can be concluded from it
+            for kw in observed_trim_kwargs(recs):
+                if kw not in seen_kwargs:
+                    seen_kwargs.append(kw)
+            if msg and add("site-train-seq", msg, seed=seed, clustering=clustering,
+                           ws_hex=[[f2hex(x) for x in w] for w in ws[:bad + 1]]):
+                return True
+        # every argument set the Trainer was seen to use, applied DIRECTLY to weight vectors of all profiles
+        for kw in seen_kwargs:
+            if not kw["extra"]:
+                continue
+            for k in range(40 if tier == "quick" else 200):
+                w = _profile(rng, rng.randint(20, 300), rng.choice(["even", "even", "uniform", "concentrated", "mixed"]))
+                try:
+                    msg = direct_trim_with(w, kw["ess"], kw["bins"], kw["extra"])
+                except HarnessAbort:
+                    break
+                if msg and add("trim-kw", msg, w_hex=[f2hex(x) for x in w], ess=kw["ess"], bins=kw["bins"],
+                               extra={kk: (list(v) if isinstance(v, tuple) else v) for kk, v in kw["extra"].items()}):
+                    return True
         for k in range(12 if tier == "quick" else 80):
             _, w = _site_weights(rng, n)
             beta = 0.0 if k % 6 == 0 else 0.5
             try:
-                msg = trainer_site_property(drive_trainer(core, w, beta, clustering), w)
+                msg = trainer_site_property(drive_trainer(core, w, beta, clustering, trainer=_fresh_trainer(core)), w)
+            except HarnessAbort:
+                break
             except Exception as ex:  # noqa
                 msg = f"Trainer.run raised {type(ex).__name__}: {ex}"
             if msg and add("site-train", msg, seed=seed, clustering=clustering, w_hex=[f2hex(x) for x in w], beta=beta):
@@ -1003,7 +1249,23 @@ def replay_site(f):
         except Exception as ex:  # noqa
             msg = f"_compute_metric_and_weights raised {type(ex).__name__}: {ex}"
         return {"fails": msg is not None, "detail": msg}
+    if kind == "trim-kw":
+        extra = {k: (tuple(v) if isinstance(v, list) else v) for k, v in f.get("extra", {}).items()}
+        try:
+            msg = direct_trim_with([hex2f(t) for t in f["w_hex"]], f["ess"], f["bins"], extra)
+        except HarnessAbort as ex:
+            return {"fails": False, "detail": f"not replayable: {ex}"}
+        return {"fails": msg is not None, "detail": msg}
     s = _live_sampler(f.get("seed", 11), bool(f.get("clustering")))
+    if kind == "site-train-seq":
+        ws = [[hex2f(t) for t in w] for w in f["ws_hex"]]
+        if any(len(w) != len(s._core.state.get_history("u", flat=True)) for w in ws):
+            return {"fails": False, "detail": "recorded weights do not fit the history of the replayed run"}
+        try:
+            _, msg, _ = run_trainer_sequence(s._core, ws, bool(f.get("clustering")))
+        except HarnessAbort as ex:
+            return {"fails": False, "detail": f"not replayable: {ex}"}
+        return {"fails": msg is not None, "detail": msg}
     if kind == "site-flow":
         msg = iteration_object_flow(s, common.rng_for("C20.searchSites"))
     else:
@@ -1011,7 +1273,9 @@ def replay_site(f):
         if len(w) != len(s._core.state.get_history("u", flat=True)):
             return {"fails": False, "detail": "recorded weights do not fit the history of the replayed run"}
         try:
-            msg = trainer_site_property(drive_trainer(s._core, w, f.get("beta", 0.5), bool(f.get("clustering"))), w)
+            msg = trainer_site_property(drive_trainer(s._core, w, f.get("beta", 0.5), bool(f.get("clustering")), trainer=_fresh_trainer(s._core)), w)
+        except HarnessAbort as ex:
+            return {"fails": False, "detail": f"not replayable: {ex}"}
         except Exception as ex:  # noqa
             msg = f"Trainer.run raised {type(ex).__name__}: {ex}"
     return {"fails": msg is not None, "detail": msg}
